@@ -48,7 +48,8 @@ def oz(x):
     return "None" if x is None else f"(Some {x})"
 
 
-def observe(coll, source_ids, search_tags, batches, store, extra_paths=()):
+def observe(coll, source_ids, search_tags, batches, store, extra_paths=(),
+            rng=None):
     """Call every accessor of the real collection `coll`; return the Coq case
     term, the canonical answers and the list of violated identities.
 
@@ -104,6 +105,14 @@ def observe(coll, source_ids, search_tags, batches, store, extra_paths=()):
     defs = [d for d in did.m] + [UNKNOWN_DEF]
     def_ids = [did(d) for d in defs]
     stags = list(search_tags) + [UNKNOWN_TAG]
+    if rng is not None:
+        # the lookups below form ONE history on the same collection object:
+        # restricted / unrestricted / unknown paths in a generated order
+        for lst in (paths, tags, defs, stags):
+            rng.shuffle(lst)
+        path_ids = [pid(p) for p in paths]
+        tag_ids = [None if t is None else tid(t) for t in tags]
+        def_ids = [did(d) for d in defs]
     stag_ids = [tid(t) for t in stags]
     skeys = [None] + sorted(set(sid.m.values()))
     inv_sid = {v: k for k, v in sid.m.items()}
@@ -147,6 +156,29 @@ def observe(coll, source_ids, search_tags, batches, store, extra_paths=()):
         want_paths.append([by_path, by_tag, seqs, secs_enc, st_enc])
         answers[pi] = {'by_path': by_path, 'by_tag': by_tag, 'seqs': seqs,
                        'secs': secs_raw, 'stags': st_raw}
+    # second pass over the same object in another order: a lookup must not
+    # change what a later lookup (with another path argument) answers
+    replay = []
+    order = list(zip(paths, path_ids))[::-1]
+    if rng is not None:
+        rng.shuffle(order)
+    for p, pi in order:
+        a = answers[pi]
+        again = {'seqs': U(coll._get_all_sequence_results(p)),  # noqa, pylint: disable=protected-access
+                 'by_path': U(coll.find_by_path(p)),
+                 'by_tag': [U(coll.find_by_tag(t, p)) for t in tags]}
+        st = []
+        for t in stags:
+            try:
+                st.append(enc_secs(coll.find_sequence_by_tag(t, p))[1])
+            except KeyError:
+                st.append(None)
+        again['stags'] = st
+        for k, v in again.items():
+            if v != a[k]:
+                replay.append({'sig': 'lookup-history-changed-answer',
+                               'accessor': k, 'path': pi, 'first': a[k],
+                               'later': v})
     all_ = U(list(coll.all))
     items = [[pid(k), U(v)] for k, v in coll.items()]
     files = [pid(p) for p in coll.files]
@@ -164,7 +196,7 @@ def observe(coll, source_ids, search_tags, batches, store, extra_paths=()):
             + "; ".join(oz(k) for k in skeys) + "]) : case_t)")
 
     # ---------------------------------------------------- spec oracle
-    bad = []
+    bad = list(replay)
 
     def fail(sig, **kw):
         bad.append({'sig': sig, **kw})
@@ -308,6 +340,9 @@ def synthetic(rng, shape):
     from searchkit.results_store import ResultStoreSimple
     from searchkit.search import SearchResultsCollection
     store = ResultStoreSimple()
+    if rng.random() < 0.4:
+        store.add(None, None, 'first-value')   # slot 0 holds a VALUE;
+        # otherwise the first tag gets slot 0 (first result has no value)
     npaths = {'one-tag-5-paths': 5, 'single-path': 1}.get(
         shape, rng.randint(2, 5))
     source_ids = {i: f"/p/f{i}.log" for i in range(npaths)}
@@ -393,7 +428,7 @@ def synthetic(rng, shape):
     for b in batches:
         coll.add(b)
     try:
-        obs = observe(coll, source_ids, search_tags, batches, store)
+        obs = observe(coll, source_ids, search_tags, batches, store, rng=rng)
     except Exception as exc:                                  # noqa
         return {'raised': f"{type(exc).__name__}: {exc}",
                 'trace': traceback.format_exc()[-1500:],
@@ -472,7 +507,7 @@ def real_run(cfg, workdir):
                        else paths[0])
         coll = fs.run()
         try:
-            obs = observe_real(fs, coll, recorded)
+            obs = observe_real(fs, coll, recorded, rng)
         except Exception as exc:                              # noqa
             return {'raised': f"{type(exc).__name__}: {exc}",
                     'trace': traceback.format_exc()[-1500:],
@@ -483,11 +518,12 @@ def real_run(cfg, workdir):
         shutil.rmtree(d, ignore_errors=True)
 
 
-def observe_real(fs, coll, recorded):
+def observe_real(fs, coll, recorded, rng=None):
     cat = fs.catalog
     obs = observe(coll, dict(cat._source_ids),               # noqa, pylint: disable=protected-access
                   {k: list(v) for k, v in cat._search_tags.items()},  # noqa, pylint: disable=protected-access
-                  recorded, coll.results_store, extra_paths=fs.files)
+                  recorded, coll.results_store, extra_paths=fs.files,
+                  rng=rng)
     obs['meta']['kind'] = 'real:' + ('mp' if len(fs.files) > 1 else 'single')
     obs['meta']['files'] = len(fs.files)
     obs['meta']['stats_results'] = fs.stats['results']
